@@ -42,7 +42,7 @@ func props() map[string]*propCfg {
 	add(&propCfg{ID: "C01", Level: "exploration", Families: []famWeight{{"frag", 1, false}}, QuickRuns: 4000, ThorSecs: 600})
 	add(&propCfg{ID: "C02", Level: "exploration", Families: []famWeight{{"frag", 2, false}, {"relay", 1, false}}, QuickRuns: 4000, ThorSecs: 600})
 	add(&propCfg{ID: "C03", Level: "exploration", Families: []famWeight{{"hostile", 3, false}, {"poison", 1, false}}, QuickRuns: 4000, ThorSecs: 600})
-	add(&propCfg{ID: "C04", Level: "exploration", Families: []famWeight{{"mesh", 2, false}, {"relay", 1, false}}, QuickRuns: 4000, ThorSecs: 600, Race: true})
+	add(&propCfg{ID: "C04", Level: "exploration", Families: []famWeight{{"mesh", 2, false}, {"relay", 1, false}, {"apiconc", 1, false}}, QuickRuns: 4000, ThorSecs: 600, Race: true})
 	add(&propCfg{ID: "C05", Level: "exploration", Families: []famWeight{{"mesh", 2, false}, {"relay", 1, false}, {"dial", 1, false}, {"pressure", 1, false}}, QuickRuns: 4000, ThorSecs: 600})
 	add(&propCfg{ID: "C06", Level: "exploration", Families: []famWeight{{"codec6", 2, false}, {"mesh", 1, false}, {"frag", 1, false}}, QuickRuns: 4000, ThorSecs: 600})
 	add(&propCfg{ID: "C07", Level: "exploration", Families: []famWeight{{"close", 1, false}}, QuickRuns: 4000, ThorSecs: 600})
@@ -163,7 +163,7 @@ func (a *agg) add(r *RunResult, prop string) {
 
 // raceFamilies: the workloads of the race pass (every family with several library goroutines
 // sharing state; C04's own come first).
-var raceFamilies = []string{"mesh", "relay", "close", "cancel", "pressure", "conns", "poison", "hostile", "dial", "timeline"}
+var raceFamilies = []string{"mesh", "relay", "apiconc", "close", "cancel", "pressure", "conns", "poison", "hostile", "dial", "timeline"}
 
 type found struct {
 	v   Violation
@@ -194,6 +194,7 @@ func cmdRun(args []string) int {
 	t0 := time.Now()
 	bin := buildBinary(false)
 	findings := loadFindings()
+	activeFindings = findings
 
 	fams := pc.Families
 	if *famFlag != "" {
